@@ -11,3 +11,20 @@ ALLOWED_AXIOMS = []
 TRUSTED_BASE = ['coq/Ext/Model.v (hand model)']
 ASSUMPTIONS = ['see props/extlib.py']
 PARTS = [extlib.MergePart, extlib.SubsetPart]
+
+
+class _Merge(extlib.MergePart):
+    @staticmethod
+    def oracle(case, obs):
+        m = extlib.MergePart.oracle(case, obs)
+        return None if m and extlib.finding_sig_merge(case, obs) else m     # open findings N1/N3/N4: corpus of C03
+
+
+class _Subset(extlib.SubsetPart):
+    @staticmethod
+    def oracle(case, obs):
+        m = extlib.SubsetPart.oracle(case, obs)
+        return None if m and extlib.finding_sig_subset(case, obs) else m    # open finding N2: corpus of C04
+
+
+PARTS = [_Merge, _Subset]
